@@ -194,6 +194,12 @@ class PyFacts(object):
         if isinstance(st, ast.Assign) and isinstance(st.value, ast.Constant) and \
             isinstance(st.value.value, str):
           extra_strs.add(st.value.value)
+        elif isinstance(st, ast.Assign) and isinstance(st.value, (ast.Tuple, ast.List, ast.Dict, ast.Set)):
+          # a class-level table of symbols (pairs, lists): its strings are
+          # symbols of the namespace class just like literals in its methods
+          for c_ in ast.walk(st.value):
+            if isinstance(c_, ast.Constant) and isinstance(c_.value, str):
+              extra_strs.add(c_.value)
     elif name in self.m.funcs:
       fis = [self.m.funcs[name]]
     else:
